@@ -95,7 +95,8 @@ def _mk_params(kind):
         return [None if i in UNKNOWN else Fr(p) for i, p in enumerate(PR)]
     import sympy
 
-    return [sympy.Symbol("K%d" % i, positive=True) for i in range(len(PR))]
+    # K1 and K3 are plain symbols (no assumptions), the others declared positive
+    return [sympy.Symbol("K%d" % i) if i in (1, 3) else sympy.Symbol("K%d" % i, positive=True) for i in range(len(PR))]
 
 
 def _expo(fr):
@@ -327,9 +328,12 @@ def _check_elim(res, a, b, shape, order):
     res.transitions += 1
     res.evaluations += 1
     res.nontrivial += 1
+    # the pair is handed over as a list, a tuple, an iterator or a generator (the argument is documented as an iterable)
+    cont = (abs(a) + 2 * abs(b) + shape + order) % 4
+    given = [pair, tuple(pair), iter(pair), (x for x in pair)][cont]
     case = dict(kind="elim", a=a, b=b, shape=shape, order=order)
     try:
-        m = list(Equilibrium.eliminate(pair, "A"))
+        m = list(Equilibrium.eliminate(given, "A"))
     except Exception as e:
         res.outcomes["ELIM-raises"] += 1
         cls = "unit-coefficients" if abs(a) == 1 and abs(b) == 1 else "general"
@@ -423,7 +427,7 @@ def _check_neg_history(res):
     Ks = [Fr(2), Fr(3, 7), Fr(11)]
     for i, (r, p) in enumerate(BASE):
         for K1, K2 in itertools.permutations(Ks, 2):
-            for how in ("copy(param=)", "shared-data-dict", "neg-twice"):
+            for how in ("copy(param=)", "shared-data-dict", "neg-twice", "param-reassigned"):
                 res.states += 1
                 res.transitions += 3
                 res.evaluations += 1
@@ -442,6 +446,11 @@ def _check_neg_history(res):
                         e2 = Equilibrium(BASE[j][0], BASE[j][1], K2, data=d)
                         first = -e
                         got, exp = -e2, (dict(BASE[j][1]), dict(BASE[j][0]), 1 / K2)
+                    elif how == "param-reassigned":
+                        e = Equilibrium(r, p, K1)
+                        first = -e
+                        e.param = K2
+                        got, exp = -e, (dict(p), dict(r), 1 / K2)
                     else:
                         e = Equilibrium(r, p, K1)
                         first = -e
@@ -454,7 +463,7 @@ def _check_neg_history(res):
                 res.outcomes["neg-history-ok" if ok else "NEG-history-WRONG"] += 1
                 if not ok:
                     res.violation("C11|neg|history|%s" % how, "base b%d, K1=%s, K2=%s, %s: reversal is %r, expected %r" % (i, K1, K2, how, obs, exp), case, str(obs), str(exp))
-    res.sample(dict(kind="neghist", how=["copy(param=)", "shared-data-dict", "neg-twice"]))
+    res.sample(dict(kind="neghist", how=["copy(param=)", "shared-data-dict", "neg-twice", "param-reassigned"]))
 
 
 def run_chunk(chunk, tier):
